@@ -117,7 +117,7 @@ def run_case(sh, fx, d, case):
 	else:
 		args += ['--qs', fx.qsig['P0']]
 		pname = 'P0'
-		qlabels, qsegs = list(clifix.QUERIES), list(clifix.QUERIES.values())
+		qlabels, qsegs = list(fx.qsig_ids), list(clifix.QUERIES.values())
 	# references
 	if rsup == 'files':
 		for i in rsel:
@@ -140,7 +140,7 @@ def run_case(sh, fx, d, case):
 	elif rsup == 'sig':
 		args += ['--rs', fx.rsig['P0']]
 		pname = 'P0'
-		rlabels, rsegs = [f'ref{i}' for i in range(len(clifix.REFS))], list(clifix.REFS)
+		rlabels, rsegs = list(fx.rsig_ids), list(clifix.REFS)
 	elif rsup == 'db':
 		args += ['--use-db']
 		pname = 'P0'
@@ -186,7 +186,7 @@ def run_case(sh, fx, d, case):
 def t_cli(tier, shard, nshards):
 	sh = Shard()
 	with fixtures.workdir('c16') as d:
-		fx = clifix.build(os.path.join(d, 'fx'), params=['P0'])
+		fx = clifix.build(os.path.join(d, 'fx'), params=['P0'], pathlike_sig_ids=True)
 		for i, case in enumerate(cases(tier)):
 			if i % nshards != shard:
 				continue
@@ -223,7 +223,7 @@ def finalize(agg, tier):
 def replay(case, kind=None):
 	sh = Shard()
 	with fixtures.workdir('c16r') as d:
-		fx = clifix.build(os.path.join(d, 'fx'), params=['P0'])
+		fx = clifix.build(os.path.join(d, 'fx'), params=['P0'], pathlike_sig_ids=True)
 		if case['rsup'] == 'square-vs-both':
 			return [v for v in t_cli('quick', 0, 10 ** 9).violations if v['kind'] == 'square-differs-from-both-sides']
 		run_case(sh, fx, d, (case['qsup'], case['rsup'], case['qsel'], case['rsel'], case['kp'], case['cores']))
